@@ -340,6 +340,14 @@ class PropertyRelation(OntologyElement):
                     (self.get_type(), self.__attr['source'], self.__attr['target'])
                 )
 
+        if self.get_type() in ['inter', 'intra', 'other']:
+            if self.__attr['description'] is None or self.__attr['predicate'] is None:
+                raise EDXMLOntologyValidationError(
+                    'The %s relation between properties %s and %s in event type %s '
+                    'must have both a relation description and a predicate.' %
+                    (self.get_type(), self.get_source(), self.get_target(), self.__event_type.get_name())
+                )
+
         if self.get_type() in ['name', 'description', 'container', 'original']:
             if self.__attr['description'] is not None:
                 raise EDXMLOntologyValidationError(
